@@ -1049,12 +1049,30 @@ pub fn chunk_aad(chunk_size: u64, idx: u64) -> Vec<u8> {
 /// under the nonce re-derived from the metadata document. `None` = the tag
 /// does not verify, i.e. the chunk was NOT encrypted under that nonce / AAD.
 pub fn open_chunk(ct: &[u8], base_nonce: &[u8], cs: u64, idx: u64, tag: &[u8]) -> Option<Vec<u8>> {
+    open_chunk_with(&harness_cipher(), ct, base_nonce, cs, idx, tag)
+}
+
+/// The harness' own AES-256-GCM instance under the store's key.
+pub fn harness_cipher() -> aes_gcm::Aes256Gcm {
     use aes_gcm::aead::KeyInit;
-    use aes_gcm::{AeadInOut, Aes256Gcm, Key, Nonce, Tag};
+    aes_gcm::Aes256Gcm::new(&aes_gcm::Key::<aes_gcm::Aes256Gcm>::from(SECRET))
+}
+
+/// [`open_chunk`] with a cipher built once by the caller. The nonce is
+/// computed HERE (`chunk_nonce`, full 64-bit counter arithmetic), never by
+/// the crate under test.
+pub fn open_chunk_with(
+    cipher: &aes_gcm::Aes256Gcm,
+    ct: &[u8],
+    base_nonce: &[u8],
+    cs: u64,
+    idx: u64,
+    tag: &[u8],
+) -> Option<Vec<u8>> {
+    use aes_gcm::{AeadInOut, Nonce, Tag};
     if tag.len() != 16 || base_nonce.len() != 12 {
         return None;
     }
-    let cipher = Aes256Gcm::new(&Key::<Aes256Gcm>::from(SECRET));
     let mut buf = ct.to_vec();
     let mut t = [0u8; 16];
     t.copy_from_slice(tag);
